@@ -256,7 +256,7 @@ func init() {
 		ID:    "C05",
 		Level: "exploration",
 		Race:  true,
-		Cases: func(tier string) int { return tierN(tier, 400, 6000) },
+		Cases: func(tier string) int { return tierN(tier, 2400, 40000) },
 		Run: func(c run.Ctx) *core.CaseResult {
 			res := &core.CaseResult{ID: c.ID(), Verdict: "held"}
 			if c.Index%8 == 7 {
@@ -277,7 +277,7 @@ func init() {
 		ID:    "C06",
 		Level: "exploration",
 		Race:  true,
-		Cases: func(tier string) int { return tierN(tier, 320, 5000) },
+		Cases: func(tier string) int { return tierN(tier, 2400, 40000) },
 		Run: func(c run.Ctx) *core.CaseResult {
 			res := &core.CaseResult{ID: c.ID(), Verdict: "held"}
 			if c.Index%8 == 7 {
@@ -298,7 +298,7 @@ func init() {
 		Level:           "exploration",
 		Race:            true,
 		RaceIsViolation: true,
-		Cases:           func(tier string) int { return tierN(tier, 160, 2400) },
+		Cases:           func(tier string) int { return tierN(tier, 1600, 30000) },
 		Run:             runC16,
 		CaseTimeout:     3 * time.Minute,
 		Rule: "case = one dense concurrent run in the race build: clients (Put/Get/Has/GetSize/Remove) + started flusher and/or explicit Flush loop + StorageSize/IndexStorageSize/PrimaryStorageSize/FreelistStorageSize/Err callers + SetFileCacheSize + collectors (background at 2-5 ms, or one harness-driven goroutine per collector) + in a quarter of the cases the rate-limited writer path, with file limits small enough that index and primary roll files while collectors read the current-file numbers. Verdict = Go race detector reports (happens-before based) with a go-storethehash frame, deduplicated by the pair of first store frames; runtime fatal errors (concurrent map access) end the worker and are attributed to the case. " +
